@@ -25,7 +25,9 @@ class DeflateZipModel(JWEZipModel):
         else:
             decompressor = zlib.decompressobj(-zlib.MAX_WBITS)
         value = decompressor.decompress(s, MAX_SIZE)
-        if decompressor.unconsumed_tail:
+        # all the input may have been consumed while output is still pending,
+        # try to pull one more byte to find out if the limit is exceeded
+        if decompressor.unconsumed_tail or decompressor.decompress(b"", 1):
             raise ExceededSizeError(f"Decompressed string exceeds {MAX_SIZE} bytes")
         return value
 
